@@ -185,6 +185,25 @@ CHECKS = {
         design="§5 C17", technique="Lean 4 proof (first-order readings of Bool judges, lazy-any and dict-merge "
                                    "characterisations, ledger invariant by induction over histories) + per-call "
                                    "differential correspondence with the real done components and SmartGridWorldSimulation"),
+    "C13": dict(
+        text="Lean 4 theorems place_ok_spec / avail_sound / avail_sorted / fail_explicit / "
+             "reset_establishes_position_invariant / maze_connected / maze_terminates: for every prior world, option "
+             "combination (no-overlap, randomised order, cluster, scatter) and oracle tape satisfying the decidable "
+             "hypothesis wfPlacement, the outcome of PositionState / TargetBarriersFreePlacementState / "
+             "MazePlacementState reset (modelled branch for branch incl. the order of tape consumption, the "
+             "per-encoding availability lists and the stable sorts) satisfies specPlacement: position invariant, "
+             "initial positions honoured, free agents alone under no-overlap, wall/passage cells of a maze whose "
+             "passages are all connected to the target (specMaze, proved for generateMaze for every start and tape, "
+             "frontier loop within its fuel), clustered barriers / scattered free agents extremal among the cells "
+             "that Grid.query would accept at that moment, failures explicit (assertion / noCell) and justified on "
+             "the grid they leave behind. Readings c13_* state the Bool predicates in Prop form. Tie: per-call "
+             "refinement - every real reset() and generate_maze() under the scripted tape is replayed by the driver "
+             "and judged by the same predicates. Open finding C13-K1 (randomly placed target joined by an agent fixed "
+             "on its cell under no-overlap) is the excluded point of wfPlacement.",
+        design="§5 C13", technique="Lean 4 proof (loop invariant on availability lists, lockstep of the placement "
+                                   "loops with the specification's replay, maze frontier invariant + flood-fill "
+                                   "completeness) + per-call differential correspondence with the real placement "
+                                   "states and generate_maze"),
 }
 
 PENDING = {
